@@ -16,7 +16,7 @@ import specclient
 from parts import roundtrip as R
 from parts import unparse_tie as ut
 
-SPEC = dict(gen=['defs', 'rules', 'tables', 'actions', 'lexdata', 'unicodecat'], props=['CalmVerif.Props.C01', 'CalmVerif.Props.C01typed', 'CalmVerif.Props.C01tok'],
+SPEC = dict(gen=['defs', 'rules', 'tables', 'actions', 'lexdata', 'unicodecat'], props=['CalmVerif.Props.C01', 'CalmVerif.Props.C01typed', 'CalmVerif.Props.C01tok', 'CalmVerif.Props.C01typed2'],
             drivers=['drv_unparse', 'drv_spec', 'drv_parse', 'drv_rt'], audit='Audit/C01.lean')
 
 
